@@ -1,5 +1,121 @@
 import Ecal.Drivers.Util
+import Ecal.Model.Priority
+/-!
+Driver of C10. Payloads (space separated):
+
+* `R <flag 0|1> <prio>:<fails>:<kid> …` — rules triggered by one event, in declaration order
+  (`kid` = the rule adds a child event before it returns). Result
+  `exec=<priorities of the started actions, in order> err=<sorted priorities in the error map> kids=<n>`.
+* `S <prio>:<fails>:<kid> …` — the same rules declared as ECAL sinks; the interpreter sets the flag by default.
+* `B <op> …` with `N<p>` NewChildMonitor(p), `A<k>` Activate, `S<k>` Skip, `F<k>` Finish of the
+  monitor number `k` (0 = the root monitor). Result: `HighestPriority()` after every op, `P` for an
+  assertion panic (the sequence ends there).
+* `K <workers> <root>|<root>…`, root = `<parent>:<prio>:<trig>:<fail>,…` (node id = position;
+  parent `r` = added from outside before the worker runs; prio `R` = added with the root monitor
+  itself). One worker: per root `id@hp.id@hp… err=<ids>`; several workers: per root
+  `set=<sorted ids> err=<sorted ids>` (the dequeue order is checked on the recorded trace).
+* with argument `trace`: a TaskQueue trace `+<root>:<prio>:<mon>` / `-<root>:<mon>` … → `ok` / `bad <k>`.
+-/
 namespace Ecal.Drv.C10
-/-- model driver of property C10 (stub: not implemented yet) -/
-def run (_args : List String) : IO Unit := Ecal.Drv.lineLoop fun _ => "unimplemented"
+open Ecal.Drv Ecal.Priority
+
+def joinOr (sep : String) (xs : List String) : String :=
+  if xs.isEmpty then "-" else sep.intercalate xs
+
+def sortInts (l : List Int) : List Int := l.mergeSort (fun a b => decide (a ≤ b))
+def sortNats (l : List Nat) : List Nat := l.mergeSort (fun a b => decide (a ≤ b))
+
+def parseRule (i : Nat) (s : String) : Option (Rule × Bool) :=
+  match s.splitOn ":" with
+  | [p, f, k] => do
+    let p ← p.toInt?
+    some ({ name := i, prio := p, fails := f == "1" }, k == "1")
+  | _ => none
+
+def runRules (flag : String) (rs : List String) : String :=
+  match (rs.zipIdx.map fun (s, i) => parseRule i s).mapM id with
+  | none => "bad-payload"
+  | some rules =>
+    let (exec, errs) := processRules stableSort (flag == "1") (rules.map (·.1))
+    let kids := (exec.filter fun r => (rules.find? (·.1.name == r.name)).any (·.2)).length
+    let nt := rules.length ≥ 2 && rules.any (·.1.fails)
+    s!"exec={joinOr "." (exec.map (toString ·.prio))} err={joinOr "." ((sortInts (errs.map (·.prio))).map toString)} kids={kids}"
+      ++ (if nt then "\tnt=1" else "")
+
+def parseOp (s : String) : Option Book.Op :=
+  let rest := (s.drop 1).toString
+  match s.front with
+  | 'N' => rest.toInt?.map .newChild
+  | 'A' => rest.toNat?.map .activate
+  | 'S' => rest.toNat?.map .skip
+  | 'F' => rest.toNat?.map .finish
+  | _ => none
+
+def runBook (ops : List String) : String :=
+  match ops.mapM parseOp with
+  | none => "bad-payload"
+  | some ops =>
+    let rec go (s : Book.RM) (ops : List Book.Op) (acc : List String) : List String :=
+      match ops with
+      | [] => acc.reverse
+      | op :: rest =>
+        match Book.step Book.current s op with
+        | none => ("P" :: acc).reverse
+        | some s' => go s' rest (toString (Book.highestPriority s') :: acc)
+    let out := go {} ops []
+    let nt := ops.any (fun | .finish _ => true | _ => false) &&
+      (ops.filter (fun | .activate _ => true | .skip _ => true | _ => false)).length ≥ 2
+    joinOr "," out ++ (if nt then "\tnt=1" else "")
+
+def parseNode (s : String) : Option Cascade.Node :=
+  match s.splitOn ":" with
+  | [par, p, t, f] => do
+    let parent ← if par == "r" then some none else par.toNat?.map some
+    let prio ← if p == "R" then some none else p.toInt?.map some
+    some { parent := parent, prio := prio, trig := t == "1", fails := f == "1" }
+  | _ => none
+
+def runRoot (one : Bool) (s : String) : String :=
+  match (s.splitOn ",").mapM parseNode with
+  | none => "bad-payload"
+  | some nodes =>
+    let st := Cascade.runScript Book.current nodes
+    if st.bad then "MODEL-ASSERT" else
+    let started := st.started.reverse
+    let errs := joinOr "." ((sortNats st.errs).map toString)
+    if one then
+      joinOr "." (started.map fun (i, hp) => s!"{i}@{hp}") ++ " err=" ++ errs
+    else
+      "set=" ++ joinOr "." ((sortNats (started.map (·.1))).map toString) ++ " err=" ++ errs
+
+def runCascade (workers : String) (roots : String) : String :=
+  let rs := roots.splitOn "|"
+  let nodes : Nat := (rs.map fun r => (r.splitOn ",").length).foldl (· + ·) 0
+  "|".intercalate (rs.map (runRoot (workers == "1"))) ++ (if nodes ≥ 3 then "\tnt=1" else "")
+
+def runCase (payload : String) : String :=
+  match payload.splitOn " " with
+  | "R" :: flag :: rules => runRules flag rules
+  | "S" :: rules => runRules "1" rules
+  | "B" :: ops => runBook ops
+  | ["K", workers, roots] => runCascade workers roots
+  | _ => "bad-payload"
+
+def parseQEv (s : String) : Option QEv :=
+  let rest := (s.drop 1).toString
+  match s.front, rest.splitOn ":" with
+  | '+', [r, p, m] => do some (.push (← r.toNat?) (← p.toInt?) (← m.toNat?))
+  | '-', [r, m] => do some (.pop (← r.toNat?) (← m.toNat?))
+  | _, _ => none
+
+def traceCase (payload : String) : String :=
+  match (payload.splitOn " ").mapM parseQEv with
+  | none => "bad-payload"
+  | some evs =>
+    match checkTrace [] 0 evs with
+    | none => "ok"
+    | some k => s!"bad {k}"
+
+def run (args : List String) : IO Unit :=
+  if args == ["trace"] then lineLoop traceCase else lineLoop runCase
 end Ecal.Drv.C10
